@@ -32,6 +32,69 @@ MUTANTS = [
     ('obs_contains_x_bound', G + 'spaces.py', "        x_in_grid = 0 <= observation.agent.position.x < self.area.width", "        x_in_grid = 0 <= observation.agent.position.x <= self.area.width", ['C01']),
 ]
 
+T = G + 'envs/transition_functions.py'
+R = G + 'envs/reward_functions.py'
+MUTANTS += [
+    # ---- C02
+    ('chain_drops_rng', T, "        transition_function(state, action, rng=rng)", "        transition_function(state, action)", ['C02']),
+    ('from_visibility_drops_rng', G + 'envs/observation_functions.py', "        observation_grid, pov_agent_position, rng=rng\n", "        observation_grid, pov_agent_position\n", ['C02']),
+    ('set_seed_ignores_seed', G + 'envs/gridworld.py', "        self._rng = make_rng(seed)", "        self._rng = make_rng()", ['C02']),
+    ('stochastic_raytracing_global_numpy', G + 'envs/visibility_functions.py', "    visibility = rng.random(probs.shape) <= probs", "    visibility = np.random.random(probs.shape) <= probs", ['C02']),
+    ('debug_branch_consumes_rng', G + 'envs/gridworld.py', "        if gv_debug() and not self.state_space.contains(next_state):", "        if gv_debug() and self._rng is not None and self._rng.random() < 2 and not self.state_space.contains(next_state):", ['C02']),
+    # ---- C03
+    ('transition_with_copy_shallow', T, "    next_state = fast_copy(state)\n", "    next_state = type(state)(state.grid, fast_copy(state.agent))\n", ['C03']),
+    # ---- C04
+    ('step_keeps_stale_observation', G + 'envs/inner_env.py', "        self._state, reward, done = self.functional_step(self.state, action)\n        self._observation = None", "        self._state, reward, done = self.functional_step(self.state, action)", ['C04']),
+    ('reset_keeps_stale_observation', G + 'envs/inner_env.py', "        self._state = self.functional_reset()\n        self._observation = None", "        self._state = self.functional_reset()", ['C04']),
+    ('observation_recomputed_every_read', G + 'envs/inner_env.py', "        if self._observation is None:", "        if True:", ['C04']),
+    ('observation_eager_in_step', G + 'envs/inner_env.py', "        self._state, reward, done = self.functional_step(self.state, action)\n        self._observation = None", "        self._state, reward, done = self.functional_step(self.state, action)\n        self._observation = self.functional_observation(self._state)", ['C04']),
+    ('state_guard_removed', G + 'envs/inner_env.py', "        if self._state is None:\n            raise RuntimeError(", "        if False:\n            raise RuntimeError(", ['C04']),
+    # ---- C05 / C07
+    ('grid_rotation_R_L_swapped', G + 'grid.py', "    Orientation.R: _rotate_matrix_left,\n    Orientation.B: _rotate_matrix_backward,\n    Orientation.L: _rotate_matrix_right,", "    Orientation.R: _rotate_matrix_right,\n    Orientation.B: _rotate_matrix_backward,\n    Orientation.L: _rotate_matrix_left,", ['C05', 'C07', 'C18']),
+    ('subgrid_negative_indices_wrap', G + 'grid.py', "                    if 0 <= y < self.area.height and 0 <= x < self.area.width", "                    if -self.area.height <= y < self.area.height and -self.area.width <= x < self.area.width", ['C05', 'C07']),
+    ('observation_drops_held_item', G + 'envs/observation_functions.py', "        pov_agent_position, Orientation.F, state.agent.grid_object\n", "        pov_agent_position, Orientation.F\n", ['C05']),
+    # ---- C06
+    ('flood_fill_through_opaque', G + 'envs/visibility_functions.py', "        if not grid[position].blocks_vision:\n            for next_position", "        if True:\n            for next_position", ['C06']),
+    ('light_updated_before_counting', G + 'envs/visibility_functions.py', "            counts_num[pos.y, pos.x] += int(light)\n            counts_den[pos.y, pos.x] += 1\n            light = light and not grid[pos].blocks_vision", "            light = light and not grid[pos].blocks_vision\n            counts_num[pos.y, pos.x] += int(light)\n            counts_den[pos.y, pos.x] += 1", ['C06'], 2),
+    ('stochastic_probs_not_clipped', G + 'envs/visibility_functions.py', "    probs = np.nan_to_num(counts_num / counts_den)", "    probs = np.nan_to_num(counts_num / counts_den) + 0.2", ['C06']),
+    # ---- C09
+    ('drop_overwrites_anything', T, "    can_be_dropped = isinstance(obj_front, Floor) or obj_front.holdable", "    can_be_dropped = True", ['C09']),
+    ('obstacle_moves_by_assignment', T, "            state.grid.swap(position, next_position)", "            state.grid[next_position] = state.grid[position]", ['C09', 'C11']),
+    # ---- C10
+    ('door_colour_check_dropped', T, "            isinstance(state.agent.grid_object, Key)\n            and state.agent.grid_object.color == door.color", "            isinstance(state.agent.grid_object, Key)", ['C10']),
+    ('actuate_closes_open_doors', T, "    if door.is_open:\n        pass", "    if door.is_open:\n        door.state = Door.Status.CLOSED", ['C10']),
+    ('key_consumed_on_unlock', T, "            and state.agent.grid_object.color == door.color\n        ):\n            door.state = Door.Status.OPEN", "            and state.agent.grid_object.color == door.color\n        ):\n            door.state = Door.Status.OPEN\n            state.agent.grid_object = NoneGridObject()", ['C10', 'C09']),
+    # ---- C11
+    ('obstacle_onto_any_walkable', T, "            and isinstance(state.grid[next_position], Floor)", "            and not state.grid[next_position].blocks_movement", ['C11']),
+    ('teleport_colour_filter_dropped', T, "            and isinstance(state.grid[position], Telepod)\n            and state.grid[position].color == telepod.color", "            and isinstance(state.grid[position], Telepod)", ['C11']),
+    ('teleport_may_stay', T, "            if position != state.agent.position\n            and isinstance(state.grid[position], Telepod)", "            if isinstance(state.grid[position], Telepod)", ['C11']),
+    # ---- C12
+    ('getting_closer_signs_swapped', R, "        reward_closer\n        if distance_next < distance_prev", "        reward_closer\n        if distance_next > distance_prev", ['C12'], 2),
+    ('reward_overlap_uses_state', R, "        if isinstance(next_state.grid[next_state.agent.position], object_type)", "        if isinstance(state.grid[state.agent.position], object_type)", ['C12']),
+    ('gridworld_reward_args_swapped', G + 'envs/gridworld.py', "        reward = self._reward_function(state, action, next_state)", "        reward = self._reward_function(next_state, action, state)", ['C12']),
+    ('reduce_any_is_all', G + 'envs/terminating_functions.py', "        reduction=any,", "        reduction=all,", ['C12']),
+    ('pickndrop_reward_swapped', R, "        reward_pick\n        if not has_key and next_has_key", "        reward_pick\n        if has_key and not next_has_key", ['C12']),
+    # ---- C13
+    ('empty_exit_on_boundary', G + 'envs/reset_functions.py', "        exit_y = shape.height - 2\n", "        exit_y = shape.height - 1\n", ['C13']),
+    ('keydoor_key_beyond_wall', G + 'envs/reset_functions.py', "    x_key = rng.integers(1, x_wall - 1, endpoint=True)", "    x_key = rng.integers(1, x_wall + 1, endpoint=True)", ['C13', 'C14']),
+    ('keydoor_agent_beyond_wall', G + 'envs/reset_functions.py', "    x_agent = rng.integers(1, x_wall - 1, endpoint=True)", "    x_agent = rng.integers(1, shape.width - 2, endpoint=True)", ['C13']),
+    # ---- C16
+    ('no_overlap_status_offset', G + 'representations/representation.py', "            max_agent_object_type_index + grid_object.state_index + 1,", "            max_agent_object_type_index + grid_object.state_index,", ['C16']),
+    # ---- C17
+    ('only_first_reward_kept', G + 'envs/yaml/factory.py', "            factory_reward_function(d) for d in data['reward_functions']", "            factory_reward_function(d) for d in data['reward_functions'][:1]", ['C17']),
+    ('transition_list_reversed', G + 'envs/yaml/factory.py', "            factory_transition_function(d) for d in data['transition_functions']", "            factory_transition_function(d) for d in data['transition_functions'][::-1]", ['C17']),
+    ('shape_reversed', G + 'envs/yaml/factory.py', "        data['shape'] = Shape(*data['shape'])", "        data['shape'] = Shape(*data['shape'][::-1])", ['C17']),
+    # ---- C19
+    ('ray_step_size_1', G + 'utils/raytracing.py', "step_size=0.01)", "step_size=1.0)", ['C19'], 2),
+    ('ray_truncates_instead_of_rounding', G + 'utils/raytracing.py', "Position(round(y), round(x))", "Position(int(y), int(x))", ['C19']),
+    ('ray_dedup_removed', G + 'utils/raytracing.py', "    positions = mitt.unique_everseen(positions) if unique else positions", "    positions = positions", ['C19']),
+    # ---- C20
+    ('int_to_action_off_by_one', G + 'spaces.py', "        return self.actions[action]", "        return self.actions[action - 1]", ['C20', 'C01']),
+    ('wrapper_returns_observation', G + 'gym.py', "        return self.observation, reward, done, info", "        return observation, reward, done, info", ['C20']),
+    ('gym_space_not_updated_on_switch', G + 'gym.py', "        self.observation_space = outer_space_to_gym_space(\n            self.outer_env.observation_representation.space\n        )", "        pass", ['C20']),
+    ('gym_step_reads_observation_before_stepping', G + 'gym.py', "        reward, done = self.outer_env.step(action_)\n        return self.observation, reward, done, {}", "        observation = self.observation\n        reward, done = self.outer_env.step(action_)\n        return observation, reward, done, {}", ['C20']),
+]
+
 
 def run(cmd, **kw):
     return subprocess.run(cmd, shell=True, capture_output=True, text=True, **kw)
@@ -79,14 +142,16 @@ def main(argv):
         # evidence files were rewritten against the scratch copy: they are not evidence
         return 0
     results = {}
-    for name, fn, old, new, props in MUTANTS:
+    for entry in MUTANTS:
+        name, fn, old, new, props = entry[:5]
+        want = entry[5] if len(entry) > 5 else 1
         if argv and not any(a in name for a in argv):
             continue
         d = scratch()
         try:
             p = os.path.join(d, fn)
             s = open(p).read()
-            if s.count(old) != 1:
+            if s.count(old) != want:
                 print(f'{name}: pattern occurs {s.count(old)} times -- skipped')
                 continue
             open(p, 'w').write(s.replace(old, new))
